@@ -1693,8 +1693,19 @@ where
         }
     }
 
+    // `(a,)` is a one-element tuple, `(a)` is a parenthesised expression: this comma must stay
+    let single_with_comma = _open == "(" && items.len() == 1 && seps.len() == 1;
+
     if items.is_empty() {
         open_doc.append(close_doc)
+    } else if single_with_comma {
+        let comments = seps.pop().unwrap();
+        open_doc
+            .append(items.pop().unwrap())
+            .append(allocator.text(","))
+            .append(comments)
+            .append(close_doc)
+            .group()
     } else {
         // Use softline between items (after comma), but not after opening delimiter
         // This prioritizes breaking at binary operators over breaking at function call boundaries
